@@ -88,6 +88,18 @@ def gen_cases(rng, tier):
                     vals[rng.randrange(n)] = Fraction(rng.randint(2, 3))
                 toks = ["n:" + rat(r) for r in vals]
                 disperse = "1"
+            elif rng.random() < .15:
+                # equal whole-number shares that are NOT on the grid (the quantum
+                # does not divide 1): every portion must still be a multiple of it
+                u = rng.choice(qunits)
+                qu = ctx.quantum(u)
+                for _ in range(50):
+                    sh, n = rng.randint(1, 60), rng.randint(2, 6)
+                    if (sh / qu).denominator != 1 and (n * sh / qu).denominator == 1:
+                        x = Fraction(n * sh)
+                        vals = [Fraction(1)] * n
+                        toks = ["n:1/1"] * n
+                        break
             ops.append(["q_alloc", f"{_qty.tok(rng, x)}@{u}", ",".join(toks), disperse, mode])
         case = _qty.case_of(ctx, ops, ["allocate"])
         cases.append(case)
